@@ -1,174 +1,49 @@
-(* C07: what NewPAT + the accessors do when pointer_field = k (the section starts k bytes after the
-   pointer): SectionLength / NumPrograms honour the pointer, ProgramMap and SPTSpmtPID read their
-   four-byte groups from the FIXED payload offset 9.  Also: the executable oracle of Spec/PatSpec.v
-   (spec_map) is the map the theorems speak of. *)
+(* C07: witnesses for pointer_field > 0 (finding P1: before /repo commit 3223166 ProgramMap / SPTSpmtPID read their
+   four-byte groups from the FIXED payload offset 9; the general theorems for every pointer_field are in Proofs/Pat.v),
+   and: the executable oracle of Spec/PatSpec.v (spec_map) is the map the theorems speak of. *)
 From Gots Require Import Base.Prelude Model.Pat Spec.PatSpec Proofs.PatBase Proofs.StreamTypeDesc Proofs.Pat.
 Import Pat PatSpec.
 
-(* ---- the entry loop on arbitrary bytes ---- *)
-Lemma loop_raw n : forall pre bs counter m, counter + 1 = len pre -> (4 * n <= length bs)%nat -> is_bytes bs ->
-  program_map_loop n (pre ++ bs) counter m = Ok (fold_left step (raw_entries n bs) m).
-Proof.
-  induction n as [|n IH]; intros pre bs counter m Hc Hl Hb; [reflexivity|].
-  destruct bs as [|a [|b [|c [|d t]]]]; cbn [length] in Hl; try lia.
-  unfold is_bytes in Hb. inversion Hb as [|? ? Ha Hb1]; subst. inversion Hb1 as [|? ? Hbb Hb2]; subst.
-  inversion Hb2 as [|? ? Hcb Hb3]; subst. inversion Hb3 as [|? ? Hdb Hb4]; subst. unfold is_byte in *.
-  cbn [program_map_loop raw_entries fold_left].
-  rewrite (idx_at pre _ (counter + 1) 0) by lia. rewrite idx0. cbn [bind].
-  rewrite (idx_at pre _ (counter + 2) 1) by lia. rewrite idx1. cbn [bind].
-  rewrite (idx_at pre _ (counter + 3) 2) by lia. rewrite idx2. cbn [bind].
-  rewrite (idx_at pre _ (counter + 4) 3) by lia. rewrite idx3. cbn [bind].
-  rewrite be_join by exact Hbb. rewrite land31, be_join by exact Hdb.
-  replace (pre ++ a :: b :: c :: d :: t) with ((pre ++ [a; b; c; d]) ++ t) by (rewrite <- app_assoc; reflexivity).
-  rewrite IH; [reflexivity | rewrite plen_app; unfold len at 2; cbn [length]; lia | lia | exact Hb4].
-Qed.
-
-(* ---- reading a serialised entry list back as raw groups gives the entries ---- *)
-Lemma raw_of_ser es post : Forall wf_entry es ->
-  raw_entries (length es) (concat (map ser_entry es) ++ post) = es.
-Proof.
-  induction es as [|e es IH]; intros W; [reflexivity|].
-  inversion W as [|? ? (Hpn & Hpid & Hres) W']; subst.
-  cbn [length map concat]. unfold ser_entry at 1. cbn [app raw_entries]. rewrite (IH W').
-  f_equal. destruct e as [p x r]. cbn [pn pid res] in *. f_equal; lia.
-Qed.
-
-Section Pointer.
-Variables (k : N) (filler : bytes) (s : section) (rest : bytes).
-Hypothesis W : wf_section s.
-Hypothesis Hk : k < 256.
-Hypothesis Lf : len filler = k.
-Hypothesis Bf : is_bytes filler.
-Hypothesis Br : is_bytes rest.
-
-Let pay := ser_payload_pf k filler s rest.
-Let n := length (entries s).
-
-Lemma len_section : len (ser_section s) = 12 + 4 * len (entries s).
-Proof. destruct W as (_ & Hh & _ & _ & Hc & _). unfold ser_section. rewrite !plen_app, len_entries.
-  unfold len. cbn [length]. rewrite Hh, Hc. lia. Qed.
-Lemma len_pay : len pay = 1 + k + 12 + 4 * len (entries s) + len rest.
-Proof. unfold pay, ser_payload_pf. rewrite plen_cons, !plen_app, len_section, Lf. lia. Qed.
-
-Lemma new_pat_pf : len pay <> 188 -> new_pat pay = Ok pay.
-Proof.
-  intros H188. unfold new_pat. pose proof len_pay as L.
-  assert (E1 : (len pay <? 13) = false) by (apply N.ltb_ge; lia). rewrite E1.
-  assert (E2 : (len pay =? 188) = false) by (apply N.eqb_neq; exact H188). rewrite E2. reflexivity.
-Qed.
-
-Lemma section_length_pf : PatPsi.section_length pay = Ok (section_length s).
-Proof.
-  pose proof len_pay as L. destruct W as (Hf & Hh & _ & _ & _ & _ & Hsl).
-  unfold PatPsi.section_length, PatPsi.at_section, PatPsi.pointer_field.
-  assert (E0 : (len pay =? 0) = false) by (apply N.eqb_neq; lia). rewrite E0.
-  unfold pay, ser_payload_pf at 1. rewrite idx0. cbn [bind]. fold pay.
-  assert (E1 : (len pay <=? 1 + k) = false) by (apply N.leb_gt; lia). rewrite E1.
-  unfold pay, ser_payload_pf.
-  replace (k :: filler ++ ser_section s ++ rest) with ((k :: filler) ++ ser_section s ++ rest) by reflexivity.
-  replace (1 + k) with (len (k :: filler)) by (rewrite plen_cons, Lf; reflexivity).
-  rewrite slice_from_app. cbn [bind]. unfold PatPsi.section_length_sec.
-  assert (E3 : (len (ser_section s ++ rest) <? 3) = false) by (apply N.ltb_ge; rewrite plen_app, len_section; lia).
-  rewrite E3. unfold ser_section. cbn [app]. rewrite idx1. cbn [bind]. rewrite idx2. cbn [bind]. f_equal.
-  apply decode_sl. exact Hsl.
-Qed.
-
-(* NumPrograms honours the pointer: the number of entries, for every k *)
-Lemma num_programs_pf : num_programs pay = Ok (Z.of_nat n).
-Proof.
-  unfold num_programs, num_programs_with. rewrite section_length_pf. cbn [bind].
-  rewrite zlen_len, len_pay. unfold section_length.
-  assert (E : (Z.of_N (1 + k + 12 + 4 * len (entries s) + len rest) <? Z.of_N (5 + 4 * len (entries s) + 4))%Z = false)
-    by (apply Z.ltb_ge; lia).
-  rewrite E. f_equal.
-  replace (Z.of_N (5 + 4 * len (entries s) + 4) - 2 - 1 - 1 - 1 - 4)%Z with (Z.of_nat n * 4)%Z by (unfold n, len; lia).
-  apply Z.quot_mul. lia.
-Qed.
-
-(* the bytes ProgramMap decodes: n groups from payload offset 9, i.e. from offset 8 of what follows the pointer *)
-Definition seen : list entry := raw_entries n (skipn 8 (filler ++ ser_section s ++ rest)).
-
-Lemma program_map_pf : program_map pay = Ok (model_map seen).
-Proof.
-  unfold program_map, program_map_with. fold (num_programs pay). rewrite num_programs_pf. cbn [bind]. rewrite Nat2Z.id.
-  set (body := filler ++ ser_section s ++ rest).
-  assert (len body = k + 12 + 4 * len (entries s) + len rest) as Lb
-    by (unfold body; rewrite !plen_app, len_section, Lf; lia).
-  assert (pay = (k :: firstn 8 body) ++ skipn 8 body) as Ep
-    by (unfold pay, ser_payload_pf; fold body; cbn [app]; rewrite firstn_skipn; reflexivity).
-  rewrite Ep. unfold model_map, seen. fold body. apply loop_raw.
-  - rewrite plen_cons. unfold len. rewrite firstn_length. unfold len in Lb. lia.
-  - rewrite skipn_length. unfold n. unfold len in Lb. lia.
-  - assert (is_bytes body) as Bb.
-    { unfold body. destruct W as (Hf & Hh & Hhb & We & Hc & Hcb & Hsl).
-      unfold is_bytes in *. apply Forall_app. split; [exact Bf|]. apply Forall_app. split; [|exact Br].
-      unfold ser_section. repeat (apply Forall_app; split); try assumption.
-      - repeat constructor; unfold is_byte; unfold section_length in *; lia.
-      - clear - We. induction We as [|e es (A & B & C) _ IH]; [constructor|]. cbn [map concat]. apply Forall_app. split; [|exact IH].
-        unfold ser_entry. repeat constructor; unfold is_byte; lia. }
-    unfold is_bytes in *. apply Forall_forall. intros x Hx. rewrite Forall_forall in Bb. apply Bb. eapply in_skipn. exact Hx.
-Qed.
-
-Lemma program_map_pf_spec : exists m, program_map pay = Ok m /\ NoDup (map fst m) /\
-  forall p x, In (p, x) m <-> map_lookup seen p = Some x.
-Proof.
-  exists (model_map seen). split; [exact program_map_pf|]. split; [apply model_map_nodup|].
-  intros p x. rewrite <- model_map_lookup. split; [apply in_lookup; apply model_map_nodup | apply lookup_in].
-Qed.
-
-Lemma spts_pf : spts_pmt_pid pay =
-  if (1 <? Z.of_nat n)%Z then Err E.Other else
-  match seen with [e] => if pn e =? 0 then Err E.Other else Ok (pid e) | _ => Err E.Other end.
-Proof.
-  unfold spts_pmt_pid, spts_pmt_pid_with. fold (num_programs pay). fold (program_map pay).
-  rewrite num_programs_pf, program_map_pf. cbn [bind].
-  destruct (1 <? Z.of_nat n)%Z eqn:E1; [reflexivity|]. apply Z.ltb_ge in E1.
-  assert (length seen <= 1)%nat as Ls.
-  { unfold seen. generalize (skipn 8 (filler ++ ser_section s ++ rest)). intros bs.
-    destruct n as [|[|n']]; [cbn; lia | | lia]. destruct bs as [|a [|b [|c [|d t]]]]; cbn; lia. }
-  destruct seen as [|e [|e2 t]]; [reflexivity | | cbn [length] in Ls; lia].
-  cbn [model_map fold_left]. unfold step.
-  destruct (N.ltb_spec 0 (pn e)) as [Hp|Hz].
-  - assert (E : (pn e =? 0) = false) by (apply N.eqb_neq; lia). rewrite E. reflexivity.
-  - assert (E : (pn e =? 0) = true) by (apply N.eqb_eq; lia). rewrite E. reflexivity.
-Qed.
-End Pointer.
-
-(* with pointer_field 0 the bytes seen are the entries: the characterisation specialises to C07_program_map *)
-Lemma seen_pf0 s rest : wf_section s -> seen [] s rest = entries s.
-Proof.
-  intros (_ & Hh & _ & We & _). unfold seen. cbn [app]. unfold ser_section.
-  destruct (hdr s) as [|h0 [|h1 [|h2 [|h3 [|h4 [|]]]]]]; try discriminate Hh.
-  cbn [app skipn]. rewrite <- app_assoc. apply raw_of_ser. exact We.
-Qed.
-
-(* ---- the property as its text reads (any pointer_field) is false of the code: witness ----
-   one program (1 -> PID 0x100), pointer_field 1, one stuffing byte before the section:
-   ProgramMap is empty and SPTSpmtPID fails, although the section has exactly one program entry *)
+(* ---- finding P1 (notes/findings/C07.md), repaired by /repo commit 3223166 ----
+   one program (1 -> PID 0x100), pointer_field 1, one stuffing byte before the section.  With the accessors as they were
+   before the repair (`program_map_with` / `spts_pmt_pid_with`: entry loop from the FIXED payload offset 9) the map is
+   empty and SPTSpmtPID fails; the repaired accessors return the program. *)
 Definition wit_section : section := mkS 0xB [0; 1; 0xC1; 0; 0] [mkE 1 0x100 7] [1; 2; 3; 4].
 Definition wit_payload : bytes := ser_payload_pf 1 [255] wit_section [].
-Lemma pointer_nonzero_witness :
-  wf_section wit_section /\
-  wit_payload = [1; 255; 0; 0xB0; 13; 0; 1; 0xC1; 0; 0; 0; 1; 0xE1; 0; 1; 2; 3; 4] /\
-  new_pat wit_payload = Ok wit_payload /\
-  num_programs wit_payload = Ok 1%Z /\
-  program_map wit_payload = Ok [] /\ map_lookup (entries wit_section) 1 = Some 0x100 /\
-  spts_pmt_pid wit_payload = Err E.Other /\ spts (entries wit_section) = Some 0x100.
+Lemma wit_wf : wf_section wit_section.
 Proof.
   unfold wf_section, wf_entry, is_bytes, is_byte, wit_section.
   repeat split; cbn [flags hdr entries crc pn pid res]; try reflexivity; try lia; repeat constructor; try lia.
   all: try (vm_compute; reflexivity).
 Qed.
+Lemma pointer_nonzero_witness :
+  wf_section wit_section /\
+  wit_payload = [1; 255; 0; 0xB0; 13; 0; 1; 0xC1; 0; 0; 0; 1; 0xE1; 0; 1; 2; 3; 4] /\
+  new_pat wit_payload = Ok wit_payload /\
+  num_programs wit_payload = Ok 1%Z /\
+  program_map wit_payload = Ok [(1, 0x100)] /\ map_lookup (entries wit_section) 1 = Some 0x100 /\
+  spts_pmt_pid wit_payload = Ok 0x100 /\ spts (entries wit_section) = Some 0x100.
+Proof. split; [exact wit_wf|]. repeat split; vm_compute; reflexivity. Qed.
+Lemma pointer_nonzero_before_fix :
+  num_programs_with PatPsi.section_length wit_payload = Ok 1%Z /\
+  program_map_with PatPsi.section_length wit_payload = Ok [] /\
+  spts_pmt_pid_with PatPsi.section_length wit_payload = Err E.Other.
+Proof. repeat split; vm_compute; reflexivity. Qed.
 
-Lemma any_pointer_full_refuted :
-  ~ (forall k filler s rest, wf_section s -> k < 256 -> len filler = k -> is_bytes filler -> is_bytes rest ->
-     exists m, program_map (ser_payload_pf k filler s rest) = Ok m /\
-               forall p x, In (p, x) m <-> map_lookup (entries s) p = Some x).
+(* the largest pointer_field: 255 filler bytes (bare payload carrier only; a packet leaves room for k <= 171) *)
+Lemma pointer_255_example :
+  let pay := ser_payload_pf 255 (repeat 255 255) wit_section [9; 9] in
+  len pay = 274 /\ new_pat pay = Ok pay /\ num_programs pay = Ok 1%Z /\ program_map pay = Ok [(1, 0x100)] /\
+  spts_pmt_pid pay = Ok 0x100.
+Proof. cbv zeta. repeat split; vm_compute; reflexivity. Qed.
+
+Lemma any_pointer_full_holds :
+  forall k filler s rest, wf_section s -> k < 256 -> len filler = k -> is_bytes filler -> is_bytes rest ->
+  exists m, program_map (ser_payload_pf k filler s rest) = Ok m /\
+            forall p x, In (p, x) m <-> map_lookup (entries s) p = Some x.
 Proof.
-  intros F. destruct pointer_nonzero_witness as (Ww & _ & _ & _ & PM & ML & _).
-  destruct (F 1 [255] wit_section [] Ww ltac:(lia) eq_refl ltac:(repeat constructor; unfold is_byte; lia) ltac:(constructor))
-    as (m & Em & Hm).
-  fold wit_payload in Em. rewrite PM in Em. injection Em as <-. apply (proj2 (Hm 1 0x100)) in ML. destruct ML.
+  intros k filler s rest W Hk Lf _ _. destruct (program_map_spec k filler s rest W Hk Lf) as (m & E & _ & H).
+  exists m. split; [exact E | exact H].
 Qed.
 
 (* ---- the executable oracle: spec_map is the sorted list of exactly the pairs of map_lookup ---- *)
